@@ -80,6 +80,40 @@ Theorem c01_refuted :
 Proof. exact f1_acked_entry_lost. Qed.
 Print Assumptions c01_refuted.
 
+(* c01_k2_refuted (C01-K2, same root cause as C01-K1 one probe round later): leader 3 writes X at index 1
+   locally only (never acknowledged); leader 1 (1,2,2) commits Y: Receipt 1..1, held by {1,2}.  Authority
+   (1,3,3) is installed on node 2; all three voters answer the frontier round, node 1's identity-page reply
+   is lost; the stable voters {2,3} still reproduce quorum LEO 1 and quorum watermark 0 (node 3's divergent
+   log is as long), so recoverQuorumPrefix does not fail closed, finds no 2 identical copies at index 1 and
+   the Install succeeds with LEO = 0: node 2 truncated the acknowledged entry and is writable.  The monitor
+   classifies the model's own trace as known finding C01-K2 (code 3). *)
+Theorem c01_k2_refuted :
+  fst (run_model f1_cfg (cluster_init f1_cfg) k2_ops) =
+    [ RInstalled (1, 1, 1) 0 0; RErr EQuorumUnavailable; RInstalled (1, 2, 2) 0 0;
+      RReceipt (1, 2, 2) (TUser 2) 1 1 1; RInstalled (1, 3, 3) 0 0 ] /\
+  rp_leo (net_rep (cl_net (snd (run_model f1_cfg (cluster_init f1_cfg) k2_ops))) 2) = 0 /\
+  C01_monitor (model_case f1_cfg k2_ops) = 3.
+Proof. exact k2_acked_entry_lost. Qed.
+Print Assumptions c01_k2_refuted.
+
+(* the same install when node 3 holds no longer divergent log: the stable voters {2,3} have quorum LEO 0,
+   not 1, the post-page guard fails closed (ErrRecoveryProbeIncomplete), node 2 keeps the entry; monitor 0 *)
+Theorem c01_k2_guard_false_fails_closed :
+  fst (run_model f1_cfg (cluster_init f1_cfg) k2_closed_ops) =
+    [ RInstalled (1, 1, 1) 0 0; RInstalled (1, 2, 2) 0 0;
+      RReceipt (1, 2, 2) (TUser 2) 1 1 1; RErr EProbeIncomplete ] /\
+  rp_leo (net_rep (cl_net (snd (run_model f1_cfg (cluster_init f1_cfg) k2_closed_ops))) 2) = 1 /\
+  C01_monitor (model_case f1_cfg k2_closed_ops) = 0.
+Proof. exact k2_guard_false_fails_closed. Qed.
+Print Assumptions c01_k2_guard_false_fails_closed.
+
+(* BOUNDED, lost identity-page replies: all 37449 schedules of at most 5 operations over k2_alphabet after
+   leader 3's install: the monitor returns 0, 2 (C01-K1) or 3 (C01-K2), never 1 *)
+Theorem c01_model_satisfies_monitor_bounded_page_faults :
+  c01_codes_in_from (OInstall 3 (1, 1, 1) false 2 no_faults) [0; 2; 3] k2_alphabet 5 = true.
+Proof. exact c01_bounded_lost_page_replies. Qed.
+Print Assumptions c01_model_satisfies_monitor_bounded_page_faults.
+
 (* the two-commit variant of F1 is safe: the replica-persisted watermark (1) exceeds the selected
    prefix (0), the install fails closed; with node 1 back it succeeds with a barrier at 3; monitor 0 *)
 Theorem c01_two_commits_fail_closed :
